@@ -92,6 +92,13 @@ def gen_event(rng, s, kind, ch=None):
         times = [fl(t0 * gr)] + [fl((t0 + k) * gr) for k in ks]
         amps = [0.0] + [rng.choice([1e4, -2e4, 5e3]) for _ in range(n - 1)] + [0.0]
         return {'k': 'ext', 'ch': ch, 'times': times, 'amps': amps, 'alt': False, 'set': {}}
+    if kind == 'extc':
+        # extended trapezoid whose corners sit on CONSECUTIVE raster edges (0, 1, ..., n-1 rasters after its start)
+        n = rng.randint(3, 12)
+        t0 = rng.choice([0, 0, 1, 3])
+        times = [fl((t0 + k) * gr) for k in range(n)]
+        amps = [0.0] + [rng.choice([1e3, -2e3, 5e2]) for _ in range(n - 2)] + [0.0]
+        return {'k': 'ext', 'ch': ch, 'times': times, 'amps': amps, 'alt': False, 'set': {}}
     if kind == 'extoff':
         # hand-built extended trapezoid whose first corner is not at 0 (as split/add produce them)
         n = rng.randint(2, 5)
@@ -172,16 +179,19 @@ def slot_of(ev):
     return None
 
 
-def gen_block(rng, s, opts, pad=True, p_rf=0.4, p_g=0.4, p_adc=0.35, p_long=0.0, p_empty=0.0):
+def gen_block(rng, s, opts, pad=True, p_rf=0.4, p_g=0.4, p_adc=0.35, p_long=0.0, p_empty=0.0, p_solo=0.0):
     import pypulseq as pp
     evs = []
+    if not pad and rng.random() < p_solo:
+        # one gradient alone in its block: it defines the block duration
+        return {'events': [gen_event(rng, s, rng.choice(['extc', 'extc', 'ext', 'extoff', 'arb', 'trap']), rng.choice('xyz'))]}
     if rng.random() < p_empty:
         p_rf = p_g = p_adc = 0.0            # pure delay (TR fill) block
     if rng.random() < p_rf:
         evs.append(gen_event(rng, s, rng.choice(['rfb', 'rfb', 'rfs'])))
     for ch in 'xyz':
         if rng.random() < p_g:
-            evs.append(gen_event(rng, s, rng.choice(['trap', 'trap', 'trap', 'ext', 'extoff', 'arb']), ch))
+            evs.append(gen_event(rng, s, rng.choice(['trap', 'trap', 'trap', 'ext', 'extoff', 'arb', 'extc']), ch))
     if rng.random() < p_adc:
         evs.append(gen_event(rng, s, 'adc'))
     if rng.random() < 0.15:
